@@ -10,7 +10,8 @@ const (
 	nCarriers  = 8
 	tPtrBase   = 8  // 8..15: *V0..*V7
 	tIfaceBase = 16 // 16..19: I0..I3
-	nTypes     = 20
+	tBundle    = 20 // VB: a plain struct of two carriers
+	nTypes     = 21
 )
 
 var typeTab [nTypes]reflect.Type
@@ -26,12 +27,13 @@ func init() {
 	typeTab[17] = reflect.TypeOf((*I1)(nil)).Elem()
 	typeTab[18] = reflect.TypeOf((*I2)(nil)).Elem()
 	typeTab[19] = reflect.TypeOf((*I3)(nil)).Elem()
+	typeTab[tBundle] = reflect.TypeOf(VB{})
 	for i := range typeTab {
 		typeName[i] = typeTab[i].String()
 	}
 }
 
-func isIface(t int) bool { return t >= tIfaceBase }
+func isIface(t int) bool { return t >= tIfaceBase && t < tBundle }
 
 // asPtr returns a pointer to a nil interface of iface type t, as dig.As wants.
 func asPtr(t int) interface{} {
@@ -45,6 +47,11 @@ func implements(t, iface int) bool { return typeTab[t].Implements(typeTab[iface]
 func mkVal(t int, tok *Tok) reflect.Value {
 	rt := typeTab[t]
 	switch {
+	case t == tBundle:
+		v := reflect.New(rt).Elem()
+		v.Field(0).Set(mkVal(4, tok))
+		v.Field(1).Set(mkVal(7, tok))
+		return v
 	case t < tPtrBase:
 		v := reflect.New(rt).Elem()
 		v.Field(0).Set(reflect.ValueOf(tok))
@@ -75,6 +82,9 @@ func tokOf(v reflect.Value) *Tok {
 	}
 	if v.Kind() != reflect.Struct || v.NumField() == 0 {
 		return nil
+	}
+	if v.Field(0).Kind() == reflect.Struct {
+		return tokOf(v.Field(0)) // VB: the token of its first carrier
 	}
 	t, _ := v.Field(0).Interface().(*Tok)
 	return t
